@@ -211,7 +211,12 @@ Ltac oeval_done :=
   | |- Err ?e = Err ?e => reflexivity
   | |- enc_post ?p ?n (Ok ?bs) =>
       cbn [enc_post]; unfold int_enc;
-      match goal with H : (n <? pmax p) = _ |- _ => rewrite H end;
+      (* which case of the specification: the test the text made (however it spelt it: [n <? pmax p],
+         [n - pmax p <? 0], ...) is among the hypotheses, arithmetic decides *)
+      first [ match goal with H : (n <? pmax p) = _ |- _ => rewrite H end
+            | let E := fresh "E" in
+              first [ assert (E : (n <? pmax p) = true) by lia | assert (E : (n <? pmax p) = false) by lia ];
+              rewrite E; clear E ];
       rewrite ?map_app; cbn [map app];
       rewrite ?bz_byte_of by lia; rewrite ?map_bz_byte_of by octets;
       first [ reflexivity | assumption | congruence ]
